@@ -256,7 +256,7 @@ def scenario(sim, params, nfc, typ, case, fixed_os):
            "data": sim.bytes("arg.data", 400, tag=7), "t3": typ == "t3"}
     desc = dict(case.describe(), op=op)
 
-    def attempt(script_pos, kind, burst):
+    def attempt(script_pos, kind, burst, first_kind=None):
         if fixed_os is not None:
             fixed_os.reset()
         with case.world(nfc) as w:
@@ -272,6 +272,8 @@ def scenario(sim, params, nfc, typ, case, fixed_os):
             def fate(idx, data):
                 if script_pos is not None and script_pos <= idx - base < script_pos + burst:
                     fired[0] += 1
+                    if first_kind is not None and idx - base == script_pos:
+                        return first_kind
                     return kind
                 return OK
             w.device.fate = fate
@@ -330,14 +332,24 @@ def scenario(sim, params, nfc, typ, case, fixed_os):
                 plans.append((p, k, b))
             k2 = sim.pick("kind2", KINDS)
             plans.append((p, k2, sim.randint("burst2", 1, 4)))
-    for (p, k, b) in plans:
+            if typ != "t4" and op in PRIMITIVES:
+                # a burst that starts with one kind of error and persists as another one (a tag leaving the field:
+                # garbage, then silence): the error that persists is the one that is still there at the end
+                k3 = sim.pick("kind3", KINDS)
+                kf = sim.pick("kind3.first", [x for x in KINDS if ERRNO[x] != ERRNO[k3]])
+                plans.append((p, k3, sim.pick("burst3", [3, 4]), kf))
+    for plan in plans:
+        (p, k, b), kf = plan[:3], (plan[3] if len(plan) > 3 else None)
         budget = 2 if typ != "t4" else (base["n_retry"] or 0)
         if typ == "t4" and k == PROTOCOL_ERR:
             budget = 0      # ISO-DEP has no recovery from protocol errors: must fail as Type4TagCommandError
-        r = attempt(p, k, b)
+        r = attempt(p, k, b, kf)
         sim.count("evaluations")
-        ov = {"fault": [p, k, b]}
+        ov = {"fault": [p, k, b] + ([kf] if kf is not None else [])}
         fdesc = "%s x%d at exchange %d/%d" % (FATE_NAMES[k], b, p, m)
+        if kf is not None:
+            fdesc = "%s, then %s" % (FATE_NAMES[kf], fdesc.replace(" x%d" % b, " x%d" % (b - 1)))
+            sim.probe("burst.mixed_kinds")
         if r["fired"]:
             sim.fault(FATE_NAMES[k])
         pc = "first" if p == 0 else "last" if p == m - 1 else "mid"
